@@ -5597,8 +5597,9 @@ class CodegenCtx:
         elif isinstance(action, SetToStr):
             assert action.into_storage.holds_a(OutputStorageType.STR)
             # Check if we need to allocate
-            if ProgramData.do(ProgramFlag.ALLOCATE_STR_SPACE_DYNAMIC_ON_DEMAND) and action.into_storage.default_value is None:  # if it wasn't None it'd be allocated in the start()
-                if is_start:
+            # a string with a default value is allocated in start(), but delete may have freed it again since
+            if ProgramData.do(ProgramFlag.ALLOCATE_STR_SPACE_DYNAMIC_ON_DEMAND) and (action.into_storage.default_value is None or ProgramData.do(ProgramFlag.DELETE_STRING_FREE_MEMORY)):
+                if is_start and action.into_storage.default_value is None:
                     # if we're at the start, and there's no default value, and on demand is in effect, there's no possible way for state->c to have any value other than NULL
                     result.add(f"state->c.{action.into_storage.name} = malloc({action.into_storage.str_size});")
                 else:
@@ -5617,7 +5618,7 @@ class CodegenCtx:
             else:
                 # if buffer is not freed, ensure strings are made empty
                 if action.into_storage.holds_a(OutputStorageType.STR) and action.into_storage.str_null:
-                    if ProgramData.do(ProgramFlag.ALLOCATE_STR_SPACE_DYNAMIC_ON_DEMAND) and action.into_storage.default_value is None and self._is_dynamic(action.into_storage):
+                    if ProgramData.do(ProgramFlag.ALLOCATE_STR_SPACE_DYNAMIC_ON_DEMAND) and (action.into_storage.default_value is None or ProgramData.do(ProgramFlag.DELETE_STRING_FREE_MEMORY)) and self._is_dynamic(action.into_storage):
                         # an on-demand buffer may not have been allocated yet (or may have been freed again)
                         result.add(f"if (state->c.{action.into_storage.name}) state->c.{action.into_storage.name}[0] = 0;")
                     else:
@@ -5628,7 +5629,8 @@ class CodegenCtx:
             assert action.into_storage.holds_buflike()
             output_length_expr = self._generate_buflike_length_expr(action.into_storage)
             # Check if we need to allocate
-            if ProgramData.do(ProgramFlag.ALLOCATE_STR_SPACE_DYNAMIC_ON_DEMAND) and action.into_storage.default_value is None and self._is_dynamic(action.into_storage):  # if it wasn't None it'd be allocated in the start()
+            # a string with a default value is allocated in start(), but delete may have freed it again since
+            if ProgramData.do(ProgramFlag.ALLOCATE_STR_SPACE_DYNAMIC_ON_DEMAND) and (action.into_storage.default_value is None or ProgramData.do(ProgramFlag.DELETE_STRING_FREE_MEMORY)) and self._is_dynamic(action.into_storage):
                 result.add(f"if (!state->c.{action.into_storage.name}) state->c.{action.into_storage.name} = malloc({output_length_expr});")
             # We treat the size given in by the user as including a terminating null (if requested, anyways)
             max_length_expr = self._generate_buflike_length_expr(action.into_storage, include_null=True)
